@@ -166,29 +166,48 @@ def _graph_size(bound):
     return None
 
 
-def _poisoned(qual, bound, key):
+def _poisoned(qual, bound, key, model_p=None):
     """-> dict of arguments for a variant of the call that should fail, or None."""
     import numpy as np
     b = dict(bound)
     p = _graph_size(bound)
     pick = (key // 8) % 3
+    if isinstance(b.get("random_state"), (int, np.integer)) and not isinstance(b.get("random_state"), bool):
+        b["random_state"] = int(b["random_state"]) + (key // 16) % 2      # the failing call has the same seed, or its own
+
+    def others(S, bad):
+        """The nodes the judged call does NOT name, plus one outside the graph."""
+        rest = set(range(p)) - {int(v) for v in S}
+        return (rest or {int(v) for v in S}) | {bad}
     if qual == "LGANM.sample":
-        names = [n for n in ("do_interventions", "shift_interventions", "noise_interventions") if b.get(n)]
-        if names and pick != 2:
-            n = names[pick % len(names)]
-            b[n] = dict(list(b[n].items()) + [(10 ** 6, (0, 1))])          # valid entries first, then a target outside the model
-            return b
-        if not b.get("population"):
+        # a valid intervention on a variable the judged call does NOT touch, the caller's own entries, then a target outside
+        # the model: whatever the first entries made the library do must be undone when the last one fails
+        nm = ("do_interventions", "shift_interventions", "noise_interventions", "do_interventions")[(key // 8) % 4]
+        used = set()
+        for n in ("do_interventions", "shift_interventions", "noise_interventions"):
+            used |= set((b.get(n) or {}).keys())
+        free = [t for t in range(model_p or 0) if t not in used]
+        extra = [(free[(key // 32) % len(free)], (7, 2))] if free else []
+        if pick == 2 and not b.get("population"):
             b["n"] = -3
-            return b
-        b["do_interventions"] = dict(list((b.get("do_interventions") or {}).items()) + [(10 ** 6, "bad")])
+        b[nm] = dict(extra + list((b.get(nm) or {}).items()) + [(10 ** 6, (0, 1)) if pick != 1 else (0, "bad")])
         return b
     if qual == "ANM.sample":
-        names = [n for n in ("do_interventions", "noise_interventions", "shift_interventions") if b.get(n)]
-        n = names[pick % len(names)] if names else "do_interventions"
-        d = dict(b.get(n) or {})
-        d[max(list(d) + [0])] = _raiser                                    # the last of the caller's callables raises
-        b[n] = d
+        import numpy as _np
+        used = set()
+        for n in ("do_interventions", "shift_interventions", "noise_interventions"):
+            used |= set((b.get(n) or {}).keys())
+        free = [t for t in range(model_p or 0) if t not in used]
+        nm = ("noise_interventions", "do_interventions", "shift_interventions")[pick]
+        d = dict(b.get(nm) or {})
+        if free:
+            d[free[(key // 32) % len(free)]] = lambda n: _np.full(n, 1e6)      # a valid intervention the judged call does not make
+        b[nm] = d
+        # ... and one of the caller's callables raises (for the last variable, or the first)
+        other = "do_interventions" if nm != "do_interventions" else "shift_interventions"
+        d2 = dict(b.get(other) or {})
+        d2[(model_p - 1) if (model_p and (key // 64) % 2) else 0] = _raiser
+        b[other] = d2
         return b
     if qual == "NormalDistribution.conditional":
         x = b.get("x")
@@ -205,10 +224,12 @@ def _poisoned(qual, bound, key):
         b["Xs"] = [int(v) for v in np.atleast_1d(b["Xs"])] + [10 ** 6]
         return b
     if qual == "separates" and p is not None:
-        b["A"] = set(b["A"]) | {p + 3}
+        b["A"] = others(b["A"], p + 3)
+        if pick == 1:
+            b["S"] = others(set(b["S"]) | set(b["B"]), p + 5) - {p + 5} - set(b["A"])
         return b
     if qual in ("induced_subgraph", "is_clique") and p is not None:
-        b["S"] = set(b["S"]) | {p + 4}
+        b["S"] = others(b["S"], p + 4)
         return b
     if qual in ("pa", "ch", "neighbors", "adj", "ancestors", "descendants", "an", "desc", "chain_component") and p is not None:
         b["i"] = p + 3
@@ -217,8 +238,36 @@ def _poisoned(qual, bound, key):
         b["to"] = p + 3
         return b
     if qual in ("imec", "dag_to_icpdag", "pdag_to_icpdag") and p is not None:
-        b["I"] = set(b["I"]) | {p + 3}
+        b["I"] = others(b["I"], p + 3)
         return b
+    if qual in ("dag_to_cpdag", "mec") or (qual in ("imec", "dag_to_icpdag") and pick == 2):
+        # the same graph with one edge turned round so that it closes a cycle (same skeleton; same v-structures if possible):
+        # the documented ValueError, for an input that looks like the judged one to anything keyed on class invariants
+        name = "G" if "G" in b else "A"
+        G0 = np.asarray(b[name])
+        if G0.ndim == 2 and 3 <= G0.shape[0] <= 12:
+            from harness import graphs as GR
+            rows = GR.rows_from_matrix(G0)
+            vs = GR.vstructures(rows)
+            best = None
+            for i in range(len(rows)):
+                for j in GR.bits(rows[i]):
+                    r = list(rows)
+                    r[i] &= ~(1 << j)
+                    r[j] |= 1 << i
+                    if GR.has_cycle_dfs(tuple(r)) and not any(r[a] >> c & 1 and r[c] >> a & 1 for a in range(len(r)) for c in range(a)):
+                        if best is None or GR.vstructures(tuple(r)) == vs:
+                            best = (i, j)
+                            if GR.vstructures(tuple(r)) == vs:
+                                break
+            if best is not None:
+                bad = G0.copy()
+                i, j = best
+                bad[j, i] = bad[i, j]
+                bad[i, j] = 0
+                b[name] = bad
+                return b
+        return None
     if qual == "is_consistent_extension":
         G = np.asarray(b["G"])
         if G.ndim == 2 and G.shape[0] >= 2:
@@ -231,13 +280,18 @@ def _poisoned(qual, bound, key):
         b["no_edges"] = 10 ** 9
         return b
     if qual in ("dag_full", "dag_avg_deg"):
-        b["p"] = float(b["p"]) + 0.5
+        b["p"] = float(b["p"]) + (0.5 if pick == 1 else 0.0)         # 6.0 == 6, but a float is not a size
         return b
     if qual == "intervention_targets":
         b["size"] = (1, 2, 3)                                              # documented ValueError
         return b
     if qual == "split_data":
-        b["ratios"] = [float("nan")] if pick else [0.5, 0.6]
+        if pick == 0:
+            b["ratios"] = [float("nan"), float("nan")]       # passes a |sum - 1| test, fails when the first fold is sized
+        elif pick == 1:
+            b["data"] = list(b["data"]) + [None]             # fails after the earlier environments were processed
+        else:
+            b["ratios"] = [0.5, 0.6]                         # the documented ValueError
         return b
     return None
 
@@ -249,7 +303,7 @@ def _fault_first(fn, qual, sig, args, kwargs, key):
     bound = dict(zip(names, args))
     bound.update(kwargs)
     try:
-        bad = _poisoned(qual, bound, key)
+        bad = _poisoned(qual, bound, key, getattr(getattr(fn, "__self__", None), "p", None))
     except Exception:                    # noqa: BLE001 - arguments of an unexpected form: no fault is injected
         return
     if bad is None:
